@@ -18,7 +18,6 @@ GLOBAL_EXEMPT = {
     (SUBSCRIBE, "with_collector"): "by-value constructor, not a notification",
     (SUBSCRIBE, "with_filter"): "by-value constructor, not a notification",
     (SUBSCRIBE, "boxed"): "by-value constructor, not a notification",
-    (COLLECT, "drop_span"): "deprecated; superseded by try_close, which must be forwarded",
 }
 
 # Collect-method -> Subscribe-method notified by Layered
@@ -29,8 +28,8 @@ COLLECT_TO_SUBSCRIBE = {
     "try_close": "on_close", "clone_span": "on_id_change", "on_register_dispatch": "on_register_dispatch",
     "downcast_raw": "downcast_raw",
 }
-# the eight span/event notifications: inner collector first, then the layer
-INNER_FIRST = {"new_span", "record", "record_follows_from", "event", "enter", "exit", "try_close", "clone_span",
+# the span/event notifications and the dispatcher registration: inner collector first, then the layer
+INNER_FIRST = {"on_register_dispatch", "new_span", "record", "record_follows_from", "event", "enter", "exit", "try_close", "clone_span",
                "on_new_span", "on_record", "on_follows_from", "on_event", "on_enter", "on_exit", "on_close",
                "on_id_change"}
 OUTER_FIRST_VETO = {"enabled", "event_enabled"}
@@ -75,6 +74,8 @@ def run(ck):
     ck.rule("C09.R3", "Layered ordering: inner first for notifications, outer first for vetoes", floor=16)
     ck.rule("C09.R4", "Dispatch::event delivers iff event_enabled", floor=1)
     ck.rule("C09.R0", "wrapper impls discovered", floor=18)
+    ck.rule("C09.R11", "an empty Vec of layers is recognised as an absent layer (it answers the none-layer marker exactly when it holds nothing)", floor=2)
+    ck.rule("C09.R10", "a close reaches every layer: the registry releases its own references through the owning stack, never by closing itself (as C05.R5)", floor=2)
     ck.rule("C09.R9", "a type that is both a Subscribe and a per-subscriber Filter implements the same hooks in both roles, through the same methods of its own", floor=20)
     ck.rule("C09.R8", "dispatcher registration is announced exactly once: who may call on_register_dispatch (std and no_std)", floor=2)
     ck.rule("C09.R7", "a None layer is transparent for the max-level hint, also after it was swapped in by a reload (as C08.R7)", floor=1)
@@ -93,6 +94,11 @@ def run(ck):
     # a None layer must be as good as an absent one also for the level hint, evaluated on the live layers (C08.R7)
     from rules import C08
     C08.r7(ck, F, rid="C09.R7")
+    # on_close is produced by Layered::try_close only: a reference the registry drops by calling itself closes the span
+    # without telling any layer (C05.R5, instantiated; its two recorded findings apply to this property as well)
+    from rules import C05
+    C05.r5(ck, F, rid="C09.R10")
+    empty_vec_is_absent(ck, F)
     # a dispatcher's registration is announced once: by the callsite registry when the Dispatch is created, and by nobody else
     # (wrappers forwarding the same call to their wrapped value excepted)
     for cfgname, FF in (("", F), ("[nostd-core]", Facts("nostd-core"))):
@@ -112,6 +118,50 @@ def run(ck):
         else:
             ck.bad("C09.R8", key, str(origin),
                    "Collect::on_register_dispatch is invoked (not merely forwarded) from %s: every layer of a stack installed that way is told about the same dispatcher more than once" % origin)
+
+
+def empty_vec_is_absent(ck, F, rid="C09.R11"):
+    """`Vec<S>::max_level_hint` is Some(OFF) for an empty vector ("nothing here wants anything"). Layered only keeps such a
+    hint from disabling the layers around it for values that answer the crate-private none-layer marker in downcast_raw
+    (Option::None does). So Vec::downcast_raw must hand out that marker when -- and only when -- the vector is empty."""
+    from rulekit.sym import PathEval, show
+    b = F.impl_method(SUBSCRIBE, "alloc::vec::Vec<S>", "downcast_raw")
+    hint = F.impl_method(SUBSCRIBE, "alloc::vec::Vec<S>", "max_level_hint")
+    if not (ck.anchor(rid, "Vec<S>::downcast_raw", b) and ck.anchor(rid, "Vec<S>::max_level_hint", hint)):
+        return
+    # does an empty vector report a hint at all? (if it reported None there would be nothing to neutralise)
+    off_when_empty = any(p.end == "return" and "OFF" in show(p.ret) for p in PathEval(hint).run())
+    marker_paths, bad = [], []
+    for p in PathEval(b).run():
+        if p.end != "return" or "NONE_LAYER_MARKER" not in show(p.ret):
+            continue
+        asks_marker = asks_empty = False
+        for c in p.conds:
+            t, v = c[0], c[1]
+            if t[0] == "call" and t[1].endswith("PartialEq::eq") and v != 0:
+                for a in t[2]:
+                    if a[0] == "call" and a[1] == "core::any::TypeId::of" and "NoneLayerMarker" in " ".join(b.term(a[3])["callee"].get("targs", [])):
+                        asks_marker = True
+            if t[0] == "call" and t[1].rsplit("::", 1)[-1] in ("is_empty", "all") and v != 0:
+                asks_empty = True
+            if t[0] == "bin" and t[1] in ("Eq",) and "len(" in show(t) and v != 0:
+                asks_empty = True
+        marker_paths.append(p)
+        if not (asks_marker and asks_empty):
+            bad.append([(show(c[0])[:60], c[1]) for c in p.conds])
+    key = "Vec<S>::downcast_raw answers the none-layer marker when the vector is empty"
+    if not off_when_empty:
+        ck.ok(rid, key, fn=b.path, detail="an empty Vec reports no OFF hint: nothing to neutralise")
+    elif marker_paths:
+        ck.ok(rid, key, fn=b.path)
+    else:
+        ck.bad(rid, key, where(b.raw["sp"]), "an empty Vec reports max_level_hint = Some(OFF) and is not recognised as an absent layer: placed above or below a layer "
+               "without a hint, Layered::pick_level_hint returns Some(OFF) for the stack and every span and event is disabled", fn=b.path)
+    key = "Vec<S>::downcast_raw answers the none-layer marker only when asked for it and only when empty"
+    if bad:
+        ck.bad(rid, key, where(b.raw["sp"]), "the marker is returned under %s" % bad[:2], fn=b.path)
+    else:
+        ck.ok(rid, key, fn=b.path)
 
 
 RIDS = {"R0": "C09.R0", "R1": "C09.R1", "R2": "C09.R2", "R3": "C09.R3"}
